@@ -520,3 +520,25 @@ Proof.
 Qed.
 
 End IndexReduceSpec.
+
+(* the common instance: the lane function builds a flat array from a list function of the lane's elements *)
+Section AlongFlat.
+Context {T U : Type} (dt : T) (du : U).
+
+Theorem along_flat_spec (a : arr T) ax (f : arr T -> res (arr U)) (g : list T -> list U) m :
+  wf a -> pos_shape (shape a) -> ax < ndim a -> (Z.of_nat (ndim a) < two64)%Z ->
+  (forall ln, wf ln -> shape ln = [nth ax (shape a) 0] -> f ln = flat_arr (g (elems ln))) ->
+  (forall l, length l = nth ax (shape a) 0 -> length (g l) = m) ->
+  exists R, apply_along_axis dt du a ax f = Ok R /\ wf R /\ shape R = upd (shape a) ax m /\
+    forall c, in_range (shape R) c ->
+      get du R c = nth (nth ax c 0) (g (elems (lane dt a ax (remove_nth c ax)))) du.
+Proof.
+  intros W P H B F G.
+  destruct (apply_along_axis_spec dt du a ax f (fun ln => mk (g (elems ln)) [length (g (elems ln))]) m W P H B)
+    as (R & E & WR & SR & GR).
+  - intros ln Wl Sl. split; [rewrite (F ln Wl Sl); apply flat_arr_ok|].
+    unfold len. cbn [elems]. apply G. rewrite Wl, Sl. cbn. lia.
+  - exists R. repeat split; auto.
+Qed.
+
+End AlongFlat.
